@@ -430,7 +430,7 @@ RULES = {
 }
 
 
-def run(ctx, prop, matchers=None, descr=None, tools_every=1):
+def run(ctx, prop, matchers=None, descr=None, tools_every=1, extra_failures=(), extra_eval=0, extra_nontrivial=0, extra_cov=None):
     if ctx.replay:
         rp = json.load(open(ctx.replay))
         cases = [rp["case"]]
@@ -464,10 +464,13 @@ def run(ctx, prop, matchers=None, descr=None, tools_every=1):
     else:
         nontrivial = sum(1 for r in records if r["obs"]["routes"] and r["obs"]["routes"][0]["accepted"]
                          and (r["case"]["doc"]["body"] or r["case"]["doc"]["meta"]))
+    failures += list(extra_failures)
+    nontrivial += extra_nontrivial
     samples = [{"text": r["text"], "obs": _brief(r["obs"], prop)} for r in records[3:len(records):max(1, len(records) // 5)]][:5]
     evaluations = len(records) if prop != "C01" else sum(len(r["obs"]["routes"]) for r in records)
     return engine.report(
-        ctx, failures=failures, matchers=matchers or {}, evaluations=evaluations, distinct_nontrivial=nontrivial,
+        ctx, failures=failures, matchers=matchers or {}, evaluations=evaluations + extra_eval, distinct_nontrivial=nontrivial,
+        extra_coverage=extra_cov,
         rule="cases = reachable states of spec/Author.tla (documents = content + spelling knobs, <= MaxDev knobs deviating), "
              "TLC breadth-first and complete for each constant set in model_runs; distinct = distinct (content, spelling); "
              + RULES[prop],
